@@ -6,6 +6,7 @@ package handshake
 import (
 	"crypto/tls"
 	"encoding/binary"
+	"math"
 
 	dtlserrors "github.com/pion/dtls/v3/internal/errors"
 	"github.com/pion/dtls/v3/pkg/crypto/clientcertificate"
@@ -48,6 +49,9 @@ func (m *MessageCertificateRequest) Marshal() ([]byte, error) {
 		out = append(out, byte(v))
 	}
 
+	if len(m.SignatureHashAlgorithms) > math.MaxUint16/2 {
+		return nil, dtlserrors.ErrVectorTooLong
+	}
 	out = append(out, []byte{0x00, 0x00}...)
 	binary.BigEndian.PutUint16(out[len(out)-2:], uint16(len(m.SignatureHashAlgorithms)*2)) //nolint:gosec //G115
 	for _, v := range m.SignatureHashAlgorithms {
@@ -57,10 +61,13 @@ func (m *MessageCertificateRequest) Marshal() ([]byte, error) {
 	// Distinguished Names
 	casLength := 0
 	for _, ca := range m.CertificateAuthoritiesNames {
+		if len(ca) > math.MaxUint16 || casLength > math.MaxUint16-2-len(ca) {
+			return nil, dtlserrors.ErrVectorTooLong
+		}
 		casLength += len(ca) + 2
 	}
 	out = append(out, []byte{0x00, 0x00}...)
-	binary.BigEndian.PutUint16(out[len(out)-2:], uint16(casLength))
+	binary.BigEndian.PutUint16(out[len(out)-2:], uint16(casLength)) //nolint:gosec // G115: bounded above.
 	if casLength > 0 {
 		for _, ca := range m.CertificateAuthoritiesNames {
 			out = append(out, []byte{0x00, 0x00}...)
